@@ -161,6 +161,8 @@ def make_problem(rng, cfgp):
                                      else f*4e-7*np.pi))
         if not np.any(sf.field):
             sf.fx[0, 1, 1] = 1e-6 if shp[1] > 1 and shp[2] > 1 else 0
+        # weak but non-zero sources (e.g. adjoint sources of tiny residuals)
+        sf.field[:] = sf.field*cfgp.get("src_scale", 1.0)
     return grid, model, sf
 
 
@@ -191,7 +193,8 @@ def gen_cfg(rng, k):
         clevel=int(rng.choice([-1, -1, 1, 2])),
         tol=float(rng.choice([1e-3, 1e-5, 1e-6, 1e-8, 1e-10])),
         maxit=int(rng.choice([0, 1, 2, 3, 8, 50, 50])),
-        return_info=True, seed=int(rng.integers(0, 2**31)))
+        return_info=True, seed=int(rng.integers(0, 2**31)),
+        src_scale=float(rng.choice([1.0, 1.0, 1.0, 1e-9, 1e-14, 1e-22])))
     if cfg['maxit'] == 0 and (cfg['ssl'] == 'gcrotmk' or not cfg['ssl']):
         # maxit=0: SciPy's gcrotmk itself fails (UnboundLocalError inside
         # SciPy); plain multigrid ignores maxit=0 (runs until another
